@@ -21,6 +21,32 @@ pub enum Case {
   /// a well-formed string in an unusual spelling: segments (columns may go backwards
   /// within a line), redundant continuation digits per number, extra separators
   Spelled { segs: Vec<Seg>, redundant: Vec<u8>, extra: Vec<(u16, bool)> },
+  /// a well-formed string given literally
+  Str(String),
+}
+
+/// the segments most maps consist of (repeat, next original line, next column, named, 1-field, ...)
+const COMMON: &[&str] = &["AAAA", "AACA", "CAAA", "A", "C", "AAAAA", "EAEA", "AAgBA"];
+
+/// every string of up to 5 common segments, each followed by ',' or ';' (or nothing at the end)
+fn common_strings() -> Box<dyn Iterator<Item = Case> + Send> {
+  let mut all: Vec<String> = vec![String::new()];
+  let mut level: Vec<String> = vec![String::new()];
+  for _ in 0..5 {
+    let mut next = vec![];
+    for s in &level {
+      for t in COMMON {
+        for sep in [",", ";"] {
+          next.push(format!("{s}{t}{sep}"));
+        }
+      }
+    }
+    // the same strings without the trailing separator
+    all.extend(next.iter().map(|s| s[..s.len() - 1].to_string()));
+    all.extend(next.iter().cloned());
+    level = next;
+  }
+  Box::new(all.into_iter().map(Case::Str))
 }
 
 fn to_mapping(s: &Seg) -> Mapping {
@@ -157,21 +183,43 @@ fn small_sequences() -> Box<dyn Iterator<Item = Case> + Send> {
 
 fn spelled_strategy() -> BoxedStrategy<Case> {
   (
-    vec((0u8..4u8, 0u32..40u32, proptest::option::weighted(0.8, (0u32..5u32, 1u32..2000u32, 0u32..70000u32, proptest::option::weighted(0.4, 0u32..40u32)))), 0..=8),
+    vec(
+      (
+        (0u8..4u8, 0u32..40u32, proptest::option::weighted(0.8, (0u32..5u32, 1u32..2000u32, 0u32..70000u32, proptest::option::weighted(0.4, 0u32..40u32)))),
+        // relation to the previous segment: 0-1 none; 2 original location = previous + (-1..=1) per field;
+        // 3 the same and at the previous generated column (a zero-width segment)
+        (0u8..4u8, 0u8..3u8, 0u8..3u8, 0u8..3u8),
+      ),
+      0..=8,
+    ),
     vec(0u8..4u8, 0..=40),
     vec((any::<u16>(), any::<bool>()), 0..=4),
   )
     .prop_map(|(raw, redundant, extra)| {
       let mut l = 1u32;
+      let mut prev: Option<(u32, Orig)> = None;
       let segs = raw
         .into_iter()
-        .map(|(dl, col, o)| {
+        .map(|((dl, col, o), (rel, d0, d1, d2))| {
           if dl == 0 {
             l += 1;
           } else if dl == 1 {
             l += 3;
           }
-          Seg { line: l, col, orig: o.map(|(src, line, col, name)| Orig { src, line, col, name }) }
+          let mut seg = Seg { line: l, col, orig: o.map(|(src, line, col, name)| Orig { src, line, col, name }) };
+          if let (true, Some((pc, po)), Some(o)) = (rel >= 2, prev, seg.orig.as_mut()) {
+            let near = |v: u32, d: u8, min: u32| (v + d as u32).saturating_sub(1).max(min);
+            o.src = near(po.src, d0, 0);
+            o.line = near(po.line, d1, 1);
+            o.col = near(po.col, d2, 0);
+            if rel == 3 {
+              seg.col = pc;
+            }
+          }
+          if let Some(o) = seg.orig {
+            prev = Some((seg.col, o));
+          }
+          seg
         })
         .collect();
       Case::Spelled { segs, redundant, extra }
@@ -260,8 +308,8 @@ impl Prop for C12 {
      flipped on and off, or unmapped, or fresh) with columns, source/name \
      indices, original lines/columns and their deltas spread over every VLQ digit count up to 2^30, both signs, 1-/4-/5-field, \
      empty lines and gaps; leg 2 (exhaustive): for each of the five fields every delta d with |d| < 2^18 (quick) / 2^20 \
-     (thorough) realised by a two-segment sequence; leg 2b (exhaustive): every sequence of <=5 segments over {unmapped, A, A+name0, A+name1, B} x {same line, new line}; leg 3: well-formed strings written by an independent encoder with \
-     redundant continuation digits, empty segments, runs of ';' and columns going backwards. Oracle: independent v3 \
+     (thorough) realised by a two-segment sequence; leg 2b (exhaustive): every sequence of <=5 segments over {unmapped, A, A+name0, A+name1, B} x {same line, new line}; leg 4 (exhaustive): every string of <=5 segments from {AAAA, AACA, CAAA, A, C, AAAAA, EAEA, AAgBA} separated by ',' / ';', read by decode_mappings and by the independent decoder; leg 3: well-formed strings written by an independent encoder with \
+     redundant continuation digits, empty segments, runs of ';', columns going backwards or standing still, original locations one step away from the previous one. Oracle: independent v3 \
      decoder/encoder + drop rule + line-only rule. Non-trivial: a delta of magnitude >= 16 (crosses a VLQ digit boundary) \
      or a negative delta, or (leg 3) a redundant digit / empty segment; distinct by hash of the case JSON".into()
   }
@@ -280,6 +328,7 @@ impl Prop for C12 {
       },
       Leg { name: "every sequence of <=5 segments over a 5-letter alphabet (exhaustive)", source: Cases::Enumerated(Box::new(|_| small_sequences())) },
       Leg { name: "unusual spellings", source: Cases::Generated(Box::new(spelled_strategy), 400_000, 4_000_000) },
+      Leg { name: "every string of <=5 common segments (exhaustive)", source: Cases::Enumerated(Box::new(|_| common_strings())) },
     ]
   }
   fn extra_coverage(&self, tier: Tier) -> std::collections::BTreeMap<String, serde_json::Value> {
@@ -369,7 +418,16 @@ impl Prop for C12 {
           }
           let odd = redundant.iter().take(k).any(|r| *r > 0) || !extra.is_empty();
           let backwards = segs.windows(2).any(|w| w[0].line == w[1].line && w[1].col < w[0].col);
-          Ok(CaseInfo::nt(odd || backwards).class(backwards, "columns going backwards").class(redundant.iter().take(k).any(|r| *r > 0), "redundant continuation digit").class(!extra.is_empty(), "empty segment / extra ';'"))
+          let zero_width = segs.windows(2).any(|w| w[0].line == w[1].line && w[1].col == w[0].col);
+          Ok(CaseInfo::nt(odd || backwards).class(zero_width, "two segments at one generated position").class(backwards, "columns going backwards").class(redundant.iter().take(k).any(|r| *r > 0), "redundant continuation digit").class(!extra.is_empty(), "empty segment / extra ';'"))
+        }
+        Case::Str(s) => {
+          let rd = vlq::decode(s).map_err(|e| format!("harness: the independent decoder rejects {s:?}: {e:?}"))?;
+          let d = crate_decode(s);
+          if d != rd {
+            return Err(format!("decode_mappings({s:?}) = {d:?}; the format defines {rd:?}"));
+          }
+          Ok(CaseInfo::nt(rd.len() >= 2).class(s.contains(",AACA;") || s.contains(",AAAA;"), "common segment last on its line, not first"))
         }
       }
     });
